@@ -91,7 +91,13 @@ type faultRun struct {
 	kind     string
 }
 
+// how many leading matches of a statement kind fail in the persistent runs
+var persistentKs = []int{1, 3}
+
 func runFault(ctx context.Context, w *out.W, tier, tmp, outDir, only string) {
+	if tier == "thorough" {
+		persistentKs = []int{1, 2, 3, 5}
+	}
 	w.Rule = "every statement `schema apply` sends through sqlitefault:// fails once (one run per statement), for rebuild / drop plans on populated parent-child databases, _fk=1 (and 0), --tx-mode file and none; non-trivial = a fault at a statement of the opener, the plan or the closer"
 	w.Exhaust = true
 	wantFKLine = false
@@ -196,9 +202,11 @@ func faultCaseMode(ctx context.Context, w *out.W, c *Case, m Mode, root string, 
 		changes, err = client.SchemaDiff(cur, des, schema.DiffNormalized())
 	}
 	nPlan := -1
+	var creates []string
 	if err == nil {
 		if p, perr := client.PlanChanges(ctx, "x", changes); perr == nil {
 			nPlan = len(p.Changes)
+			_, creates = planKinds(ctx, client, changes)
 		}
 	}
 	client.Close()
@@ -354,7 +362,7 @@ func faultCaseMode(ctx context.Context, w *out.W, c *Case, m Mode, root string, 
 				}
 				if fcode == 5 && fr.exit != 0 {
 					fr.tieCase, _ = tieCase(ctx, before, cur, changes, m.FK, "none", fidx)
-					fr.tieObs = tieObs(before, got, "prefix")
+					fr.tieObs = withCreates(tieObs(before, got, "prefix"), creates)
 				}
 			}
 			runs[i] = fr
@@ -387,6 +395,102 @@ func faultCaseMode(ctx context.Context, w *out.W, c *Case, m Mode, root string, 
 			if !reported {
 				reported = true
 				fmt.Fprintf(viol, "-- VIOLATION %s %s %s\n-- VERIF_SQL_FAULT='%s' (statement %d of the run)\n%s\n", id, v.Class, v.Msg, faultRegex(fr.stmt), fr.idx, caseText(c))
+			}
+		}
+	}
+	// Persistent faults: the 1st..k-th statement of one kind fails (a lock that does not go away, a
+	// retry layer meets the same error again) while everything else succeeds.  A refused statement is
+	// never "executed": exit 0 means the database equals the fault-free result; otherwise it is
+	// unchanged (--tx-mode file) or in a prefix state with every row in t or new_t (none).
+	kinds := []struct{ name, re string }{
+		{"copy", "^INSERT INTO .new_"}, {"create-new", "^CREATE TABLE .new_"}, {"drop", "^DROP TABLE"},
+		{"rename", "RENAME TO"}, {"add-column", "ADD COLUMN"}, {"create-index", "^CREATE (UNIQUE )?INDEX"},
+		{"pragma-off", "^PRAGMA foreign_keys = off"}, {"pragma-on", "^PRAGMA foreign_keys = on"},
+		{"pragma-query", "^PRAGMA foreign_keys$"}, {"fk-check", "^PRAGMA foreign_key_check"},
+	}
+	type prun struct {
+		kind     string
+		k        int
+		spec     string
+		exit     int
+		state    string
+		verdicts []Verdict
+		stats    map[string]int
+	}
+	var pruns []*prun
+	for _, kd := range kinds {
+		rx := regexp.MustCompile(kd.re)
+		hit := false
+		for _, st := range stmts {
+			if rx.MatchString(st) {
+				hit = true
+			}
+		}
+		if !hit {
+			continue
+		}
+		for _, k := range persistentKs {
+			var specs []string
+			for j := 1; j <= k; j++ {
+				specs = append(specs, fmt.Sprintf("%s@%d", kd.re, j))
+			}
+			pruns = append(pruns, &prun{kind: kd.name, k: k, spec: strings.Join(specs, ","), stats: map[string]int{}})
+		}
+	}
+	for pi := range pruns {
+		wg.Add(1)
+		sem <- struct{}{}
+		go func(pr *prun, pi int) {
+			defer wg.Done()
+			defer func() { <-sem }()
+			res, path := run(fmt.Sprintf("p%03d.db", pi), []string{"VERIF_SQL_FAULT=" + pr.spec})
+			pr.exit = res.Exit
+			got, err := dumpFile(ctx, path)
+			os.Remove(path)
+			if err != nil {
+				pr.state = "dump-error"
+				return
+			}
+			switch {
+			case equalDump(before, got) == "":
+				pr.state = "before"
+			case equalDump(afterRef, got) == "":
+				pr.state = "after"
+			default:
+				pr.state = "other"
+			}
+			mode := fmt.Sprintf("%s/persistent-%s-x%d", m, pr.kind, pr.k)
+			switch {
+			case pr.exit == 0 && pr.state != "after" && equalDump(before, afterRef) != "":
+				cls := "fault-success-not-applied"
+				for _, n := range before.Names {
+					if t := got.Tables[n]; t != nil && afterRef.Tables[n] != nil && len(t.Rows) < len(afterRef.Tables[n].Rows) {
+						cls = "fault-rows-lost"
+					}
+				}
+				pr.verdicts = append(pr.verdicts, Verdict{cls, fmt.Sprintf("mode=%s: exit 0 but the database is not the fault-free result (%s); VERIF_SQL_FAULT='%s'", mode, diffSummary(afterRef, got), pr.spec)})
+			case pr.exit != 0 && m.Tx == "file" && pr.state == "other":
+				pr.verdicts = append(pr.verdicts, Verdict{"fault-partial-state", fmt.Sprintf("mode=%s exit=%d: the database is neither the one before nor the fault-free result (%s); VERIF_SQL_FAULT='%s'", mode, pr.exit, diffSummary(before, got), pr.spec)})
+			case pr.exit != 0 && m.Tx == "none":
+				mm := m
+				mm.Tx = "none"
+				in := &oracleIn{ctx: ctx, cur: &c.Cur, des: &c.Des, before: before, after: got, changed: changed, applyErr: errors.New(res.Stderr), mode: mm}
+				pr.verdicts, pr.stats = in.check()
+			}
+		}(pruns[pi], pi)
+	}
+	wg.Wait()
+	for _, pr := range pruns {
+		id := fmt.Sprintf("%s/%s/persistent-%s-x%d", c.ID, m, pr.kind, pr.k)
+		w.ImplOnly(id, fmt.Sprintf("exit=%d state=%s", pr.exit, pr.state))
+		w.NonTrivial(id)
+		w.Count("persistent:" + pr.kind)
+		w.Count("persistent-state:" + m.Tx + ":" + pr.state)
+		for _, v := range pr.verdicts {
+			w.Violation(id, v.Class, v.Msg+fmt.Sprintf(" edits=%v", c.Edits))
+			if !reported {
+				reported = true
+				fmt.Fprintf(viol, "-- VIOLATION %s %s %s\n%s\n", id, v.Class, v.Msg, caseText(c))
 			}
 		}
 	}
